@@ -86,6 +86,27 @@ def mk(spec: Tuple[str, Any, Any]):
         if shape == "extra_unified":
             return (J.JSONRPCMessage.model_validate(dict({"jsonrpc": "2.0", "id": mid, "method": "tools/call", "params": params}, **extras)),
                     dict({"jsonrpc": "2.0", "id": mid, "method": "tools/call", "params": params}, **extras))
+    if shape.startswith("aliased_"):
+        # one container object referenced from several places of the payload (a constant schema shared by two tools, a row
+        # repeated in a table): no cycle, ordinary JSON
+        leaf = {"text": payload, "n": None}
+        row = [payload, leaf]
+        ap = {"a": leaf, "b": leaf, "rows": [row, row, row], "nested": {"again": leaf, "empty": [[], []]}}
+        ap["nested"]["empty"][1] = ap["nested"]["empty"][0]
+        import copy
+        plain = copy.deepcopy(ap)   # (what must arrive: the same value, aliasing is not a JSON notion)
+        kind = shape[len("aliased_"):]
+        if kind == "typed_request":
+            return J.create_request("tools/call", ap, id=mid), {"jsonrpc": "2.0", "id": mid, "method": "tools/call", "params": plain}
+        if kind == "typed_response":
+            return J.create_response(mid, ap), {"jsonrpc": "2.0", "id": mid, "result": plain}
+        if kind == "typed_error":
+            return (J.create_error_response(mid, -32000, "m", data=ap),
+                    {"jsonrpc": "2.0", "id": mid, "error": {"code": -32000, "message": "m", "data": plain}})
+        if kind == "direct_notification":
+            return J.JSONRPCNotification(method="notifications/x", params=ap), {"jsonrpc": "2.0", "method": "notifications/x", "params": plain}
+        if kind == "dict":
+            return {"jsonrpc": "2.0", "id": mid, "method": "tools/call", "params": ap}, {"jsonrpc": "2.0", "id": mid, "method": "tools/call", "params": plain}
     if shape.startswith("deep"):
         # payloads nested a few hundred levels (well inside what both validation backends and both JSON backends
         # represent; beyond the 255 levels of the typed layer's own JSON writer): still one line each, whatever the shape
@@ -171,6 +192,7 @@ GOOD_SHAPES = ["typed_request", "typed_request_noparams", "typed_notification", 
                "direct_request", "direct_notification", "direct_response", "direct_error", "direct_legacy", "direct_validate",
                "str_pretty", "str_trailing_newline",
                "extra_request", "extra_notification", "extra_response", "extra_error", "extra_unified"]
+ALIASED_SHAPES = ["aliased_typed_request", "aliased_typed_response", "aliased_typed_error", "aliased_direct_notification", "aliased_dict"]
 DEEP_SHAPES = [f"deep{d}_{k}" for d in (200, 260, 400, 600) for k in ("typed_request", "typed_response", "typed_notification", "dict")]
 BAD_SHAPES = ["unser_object", "unser_set", "unser_circular", "unser_bytes", "surrogate_dict", "unser_surrogate_str",
               "unser_deep", "unser_badrepr", "unser_typed_object", "unser_typed_bytes", "unser_typed_legacy_object"]
@@ -183,6 +205,9 @@ def gen_cases(ctx):
     for sh in GOOD_SHAPES:
         for p in PAYLOAD_STRINGS:
             yield [(sh, p, 1), ("dict_notification", "sentinel", None)]
+    for sh in ALIASED_SHAPES:
+        for p in PAYLOAD_STRINGS[:4]:
+            yield [(sh, p, 3), ("dict_notification", "sentinel", None)]
     for sh in DEEP_SHAPES:
         yield [("typed_notification", "before", None), (sh, "deep\npayload", 7), ("dict_notification", "sentinel", None)]
     # unserialisable at every position of a 3-message sequence
